@@ -61,6 +61,19 @@ CHECKS["C06"] = dict(
     note="Sampling of the input space through fault kinds, not fuzzing. The statement budget is my own proxy for the wall deadline; its constants are far above linear behaviour. Nothing about speed is claimed.",
     ref="DESIGN.md §4 C06")
 
+CHECKS["C16"] = dict(
+    engine="W-REG",
+    technique=TECH + "reference model of the register + differential probe set evaluated before/after every registration attempt + mutate-one-read-the-other + JSON dispatch repeated under simulator-chosen map iteration orders (seam T1); one fresh process per history",
+    text="Seeded exploration of register histories from the pristine state: registrations of five profile kinds under new, duplicate and built-in names are judged by a name->kind model; around every attempt ~50 probe documents (both serialisations) and NewClaims of every name are evaluated, and only lookups declaring a newly registered name may change; two instances (NewClaims twice, two profiles, one buffer decoded twice) are driven through 15 mutation kinds on one side while the other is observed; every JSON dispatch is repeated under reverse and permuted registry iteration orders and must give the same outcome.",
+    note="Iteration orders are chosen by the simulator through the T1 rewrite of the library's only map range (a newly added map range is woven automatically; one with a side-effecting operand stops the build, exit 2). Trusts the hook file injected into the scratch copy (adds code only).",
+    ref="DESIGN.md §4 C16")
+CHECKS["C07"] = dict(
+    engine="W-REG",
+    technique=TECH + "reference dispatch over the model register + differential re-decoding of the same bytes straight into NewClaims(declared), in configurations reached by registration histories and under chosen map iteration orders",
+    text="Same engine as C16 with a dispatch-centred workload: every probe document (profile present under each member / absent / null / non-string / unknown / other profile's name / both profiles' members; key 265 in shortest form, non-shortest form, last in the map) is dispatched in registers with 0..8 extra profiles and compared with the reference dispatch (declared -> registered kind, nothing -> profile 1, unregistered -> error) and with decoding the same bytes into a fresh NewClaims(declared) instance and validating it; accepted tokens must report the declared profile; NewClaims(p) must report p.",
+    note="Documents the property leaves open get only the weak invariant (never a profile other than a declared one or the default).",
+    ref="DESIGN.md §4 C07")
+
 NA = {
     "C01": "pure predicate of one claims-set: no history, fault, schedule or seam can change the verdict; deciding it needs an independent model over a value-class product space (input enumeration), which is not this technique",
     "C04": "CBOR acceptance/fidelity is a pure function of the input bytes, decided by an independent encoder over value classes; nothing for a scheduler or fault injector to own",
@@ -73,7 +86,7 @@ NA = {
     "C20": "envelope acceptance is a pure function of the input bytes, decided by enumerating envelope shapes with an independent encoder",
 }
 
-PENDING = {k: "claimed in DESIGN.md; its check is still under construction in this session and is therefore not registered yet" for k in ["C07","C16","C17"]}
+PENDING = {k: "claimed in DESIGN.md; its check is still under construction in this session and is therefore not registered yet" for k in ["C17"]}
 
 def main():
     checks = []
